@@ -132,6 +132,7 @@ class Engine:
         self.next_pid = 100
         self.steps = 0
         self.thread_counts = {}
+        self.manager_of = {}
         self.on_step = None         # callback(engine) after each step (observations)
 
     # -- actor side ---------------------------------------------------------------
@@ -477,6 +478,9 @@ class SimThread:
         ENG.op("tstart", None, self.aname)
         self._actor = ENG.spawn(self.aname, self.run, "thread")
         self._actor.owner_pid = _owner()
+        fl = getattr(self, "executor_flags", None)
+        if fl is not None:              # a manager thread: remember whose it is (by its flags object)
+            ENG.manager_of[id(fl)] = self.aname
 
     def join(self, timeout=None):
         ENG.op("tjoin", self)
